@@ -28,7 +28,13 @@ FieldSeqs(form) == { << [m |-> "name", n |-> "a"], [m |-> "ty", t |-> Ty1(form)]
                      << [m |-> "name", n |-> "b"], [m |-> "ty", t |-> TyPh(form)] >> \o SetToSeq(DocCalls(form)),      \* a DOCUMENTED phantom member
                      << [m |-> "name", n |-> "a"] >>,            \* no type: never accepted
                      << >> }
-FSCalls(form) == {[m |-> "field", seq |-> s] : s \in FieldSeqs(form)} \cup {C("finalize")}
+\* ... and, as the FIRST field of a named / unnamed set, EVERY FieldBuilder call sequence of up to three calls over a
+\* reduced alphabet: the typestate a closure ends in is only observable through what FieldsBuilder::field accepts
+WideFB(form) == IF form = "M" THEN {[m |-> "name", n |-> "a"], [m |-> "ty", t |-> "u8"], [m |-> "compact", t |-> "u32"], [m |-> "type_name", tn |-> "T1"], [m |-> "docs_always", d |-> D2]}
+                ELSE {[m |-> "name", n |-> "a"], [m |-> "ty", t |-> 0], [m |-> "type_name", tn |-> "T1"], [m |-> "docs_portable", d |-> D1]}
+UpTo3(S) == {<< >>} \cup {<<x>> : x \in S} \cup {<<x, y>> : x \in S, y \in S} \cup {<<x, y, z>> : x \in S, y \in S, z \in S}
+WideFieldSeqs(form) == UpTo3(WideFB(form)) \ FieldSeqs(form)
+FSCalls(form) == {[m |-> "field", seq |-> s] : s \in FieldSeqs(form) \cup WideFieldSeqs(form)} \cup {C("finalize")}
 Fd(s) == [m |-> "field", seq |-> s]
 \* FieldsBuilder call sequences used as arguments of VB.fields / TB.composite: <<kind, calls>>
 FSArgs(form) == { <<"named", <<Fd(<< [m |-> "name", n |-> "a"], [m |-> "ty", t |-> Ty1(form)] >>), Fd(<< [m |-> "name", n |-> "b"], [m |-> "ty", t |-> TyPh(form)] >>)>> >>,
@@ -55,7 +61,8 @@ Alphabet(bk, form) == CASE bk = "FB" -> FBCalls(form) [] bk = "FS" -> FSCalls(fo
 Starts == {<<"FB", << >> >>, <<"FS", "named">>, <<"FS", "unnamed">>, <<"FS", "unit">>, <<"VB", "V">>, <<"VS", << >> >>, <<"TB", << >> >>}
 Init == \E s0 \in Starts : \E form \in {"M", "P"} :
           /\ b = s0[1] /\ f = form /\ arg = s0[2] /\ calls = << >> /\ st = Start(s0[1], form, s0[2]) /\ done = FALSE /\ res = << >>
-Step(c) == /\ ~done /\ Len(calls) < MaxCalls /\ Enabled(st, c)
+Considered(c) == (b = "FS" /\ c.m = "field" /\ c.seq \in WideFieldSeqs(f)) => (calls = << >> /\ arg # "unit")
+Step(c) == /\ ~done /\ Len(calls) < MaxCalls /\ Considered(c) /\ Enabled(st, c)
            /\ calls' = Append(calls, c)
            /\ IF IsFinal(c) THEN done' = TRUE /\ res' = Result(st, c) /\ st' = st
               ELSE done' = FALSE /\ res' = res /\ st' = Apply(st, c)
@@ -78,5 +85,5 @@ C20_NoIllFormed == done =>
      [] b = "TB" -> st.ts.path
      [] OTHER -> TRUE
 EmitPos == done => PrintT(<<"POS", ToJson([b |-> b, f |-> f, arg |-> arg, calls |-> calls, res |-> res])>>)
-EmitNeg == ~done => \A c \in Alphabet(b, f) : Enabled(st, c) \/ PrintT(<<"NEG", ToJson([b |-> b, f |-> f, arg |-> arg, calls |-> calls, ts |-> st.ts, bad |-> c])>>)
+EmitNeg == ~done => \A c \in Alphabet(b, f) : ~Considered(c) \/ Enabled(st, c) \/ PrintT(<<"NEG", ToJson([b |-> b, f |-> f, arg |-> arg, calls |-> calls, ts |-> st.ts, bad |-> c])>>)
 =============================================================================
